@@ -7,6 +7,7 @@ use std::panic;
 mod c08;
 mod c12;
 mod c16;
+mod c17;
 mod grms;
 mod c19;
 mod c20;
@@ -23,6 +24,7 @@ fn rerun(w: &Value) -> Option<Outcome> {
         "c12_header" => Some(c12::run_header(w["input"]["text"].as_str()?)),
         "c20_u8" => Some(c20::run_u8(w["input"]["kind"].as_str()?, w["input"]["n"].as_u64()? as usize)),
         "c08_span" => Some(c08::run(w["input"]["grammar"].as_str()?, w["input"]["input"].as_str()?)),
+        "c17_sets" => Some(c17::run(w["input"]["grammar"].as_str()?, w["input"]["what"].as_str()?)),
         "c16_table" => Some(c16::run(w["input"]["grammar"].as_str()?)),
         "c19_line" => Some(c19::run_line(w["input"]["text"].as_str()?, w["input"]["byte"].as_u64()? as usize)),
         _ => None,
@@ -34,6 +36,7 @@ fn search(unit: &str, tag: &str, tier: &str) -> Option<Value> {
         "c19_queries" => c19::search(tag, tier),
         "c12_header" => c12::search(tag, tier),
         "c08_reduce" => c08::search(tag, tier),
+        "c17_firsts" | "c17_follows" | "c17_haspath" => c17::search(unit, tag, tier),
         "c16_new" | "c16_codec" => c16::search(tag, tier),
         "c20_grammar" => c20::search(tag, tier),
         _ => None,
